@@ -6,6 +6,7 @@ import (
 	"fmt"
 	"github.com/metrico/qryn/reader/plugins"
 	"github.com/metrico/qryn/reader/utils/logger"
+	"math"
 	"net/http"
 	"regexp"
 	"runtime/debug"
@@ -64,7 +65,8 @@ func ParseTimeSecOrRFC(raw string, def time.Time) (time.Time, error) {
 	}
 	if regexp.MustCompile("^[0-9.]+$").MatchString(raw) {
 		t, _ := strconv.ParseFloat(raw, 64)
-		return time.Unix(int64(t), 0), nil
+		sec, frac := math.Modf(t)
+		return time.Unix(int64(sec), int64(math.Round(frac*1000))*int64(time.Millisecond)), nil
 	}
 	return time.Parse(time.RFC3339, raw)
 }
